@@ -224,8 +224,9 @@ pub fn const_oracle(c: &Const) -> Verdict {
     }
     let cnt = c.g - greg_offset_ns(c.s);
     let e = Epoch::from_duration(mk(cnt), SCALES[c.s]);
-    let uses_offset = c.k == 2 || c.k == 3;
-    let off_min = if uses_offset { c.off_min } else { 0 };
+    // every constant is also printed with a time-zone offset (Formatter::with_timezone shifts the fields printed; only
+    // the RFC 3339 formats print the offset itself)
+    let off_min = c.off_min;
     let shifted = c.g + off_min as i128 * NS_MIN;
     let g = greg_of_ns1900(shifted);
     if !(1..=9999).contains(&g.y) {
@@ -250,7 +251,7 @@ pub fn const_oracle(c: &Const) -> Verdict {
     };
     let got = if off_min == 0 { lib!(format!("{}", Formatter::new(e, konst))) } else { lib!(format!("{}", Formatter::with_timezone(e, mk(off_min as i128 * NS_MIN), konst))) };
     ensure!(got == want, "{} on {} count {} (offset {} min): got {:?}, want {:?}", name, SCALE_NAMES[c.s], cnt, off_min, got, want);
-    if c.k == 0 {
+    if c.k == 0 && off_min == 0 {
         // ISO 8601 formatter vs default display
         let disp = lib!(format!("{e}"));
         if g.ns != 0 {
@@ -263,7 +264,7 @@ pub fn const_oracle(c: &Const) -> Verdict {
         let std = format!("{date}T{time}{frac}");
         ensure!(iso == std[..26.min(std.len())], "to_isoformat {:?}, want {:?}", iso, &std[..26.min(std.len())]);
     }
-    if c.k == 8 {
+    if c.k == 8 && off_min == 0 {
         let iso = lib!(format!("{}", Formatter::new(e, ISO8601)));
         ensure!(iso == format!("{} {}", got, SCALE_NAMES[c.s]), "ISO8601_STD output {:?} is not the ISO8601 output {:?} without the time scale", got, iso);
     }
